@@ -26,7 +26,7 @@ META = {
     ],
     "bounds": {
         "quick": {"script_length": "<= 4 over {return, call f/g/h, raise}", "selectors": "focus-free selectors up to depth 3 + 3 forced-total"},
-        "thorough": {"script_length": "<= 5 over {return, call f/g/h, raise, call-catching f}", "selectors": "as quick"},
+        "thorough": {"script_length": "<= 5 over {return, call f, call g, call h, raise}", "selectors": "as quick"},
     },
     "out_of_scope": ["order of the records emitted at one and the same exit (forced total); compared as a multiset",
                      "call trees beyond the script bound", "generators"],
@@ -117,7 +117,7 @@ def cases(tier, seed):
     cs = []
     for kind, table in (("total", TOTAL), ("forced", FORCED)):
         for name in table:
-            cs.append({"id": f"{kind}:{name}", "params": {"kind": kind, "spec": name, "n": 5 if th else 4, "alpha": 6 if th else 5},
+            cs.append({"id": f"{kind}:{name}", "params": {"kind": kind, "spec": name, "n": 5 if th else 4, "alpha": 5},
                        "budget_s": 3000 if th else 200, "per_path_s": 30})
     cs.append({"id": "total:f(a,g(b)):twin", "params": {"kind": "total", "spec": "f(a,g(b))", "n": 4, "alpha": 4},
                "vacuity_twin": True, "stop_on_refute": True, "budget_s": 100})
